@@ -2,6 +2,9 @@ package rules
 
 import (
 	"fmt"
+	"go/token"
+	"sort"
+	"strings"
 
 	"golang.org/x/tools/go/ssa"
 
@@ -114,4 +117,98 @@ func SharedReach(p *core.Prog, r *core.Report) {
 		r.OK(rule, "no-write-through-shared-reference", "-", fmt.Sprintf("%d loads of references out of package-level variables (%v); none of them, nor anything derived from them through calls or validator fields, is the target of a store, map update, delete or mutator", nSrc, uniq(srcs)))
 	}
 	r.Floor("shared_reference_loads", 1)
+}
+
+// VARIADIC-APPEND — the slice behind a variadic parameter belongs to the caller (`f(opts...)` passes the caller's
+// slice itself): `append(param, x)` writes x into the caller's backing array whenever it has spare capacity. Two
+// goroutines calling with the same `opts...` race on that slot, and the caller's slice is silently altered.
+// EXPAND-TRIGGER — the in-place expansion of a caller's schema is acceptable only for a schema that contains a
+// reference (documented); a trigger that also fires for a mere `id` rewrites (with equal values, but rewrites)
+// a reference-free schema shared by goroutines.
+func VariadicAppend(p *core.Prog, r *core.Report) {
+	const rule = "VARIADIC-APPEND"
+	n := 0
+	for _, f := range p.Funcs {
+		if f.Parent() != nil || !f.Signature.Variadic() || len(f.Params) == 0 {
+			continue
+		}
+		vp := f.Params[len(f.Params)-1]
+		n++
+		bad := ""
+		core.EachInstr(f, func(i ssa.Instruction) {
+			c, ok := i.(*ssa.Call)
+			if !ok {
+				return
+			}
+			if b, isB := c.Call.Value.(*ssa.Builtin); isB && b.Name() == "append" && len(c.Call.Args) > 0 && c.Call.Args[0] == ssa.Value(vp) {
+				bad = p.Pos(c.Pos())
+			}
+			if st, isSt := i.(*ssa.Store); isSt {
+				_ = st
+			}
+		})
+		// element stores through the parameter
+		core.EachInstr(f, func(i ssa.Instruction) {
+			if st, ok := i.(*ssa.Store); ok {
+				if ia, ok := st.Addr.(*ssa.IndexAddr); ok && ia.X == ssa.Value(vp) {
+					bad = p.Pos(st.Pos())
+				}
+			}
+		})
+		key := core.FuncName(f) + ":" + vp.Name()
+		if bad != "" {
+			r.Bad(rule, key, bad, core.FuncName(f)+" appends to (or stores into) its variadic parameter "+vp.Name()+": with spare capacity in the caller's slice the write lands in the caller's backing array — concurrent calls with the same `"+vp.Name()+"...` race on it and the caller's slice is altered")
+		} else {
+			r.OK(rule, key, p.Pos(f.Pos()), "the caller's variadic slice is only read")
+		}
+	}
+	r.Count("variadic_functions", n)
+	r.Floor("variadic_functions", 5)
+
+	// EXPAND-TRIGGER
+	const rule2 = "EXPAND-TRIGGER"
+	ctor := p.Func("newSchemaValidator")
+	if ctor == nil {
+		r.Unk(rule2, "anchor", "-", "newSchemaValidator not found")
+		return
+	}
+	core.EachInstr(ctor, func(i ssa.Instruction) {
+		c, ok := i.(*ssa.Call)
+		if !ok {
+			return
+		}
+		g := core.StaticCallee(c)
+		if g == nil || core.QualName(g) != "spec.ExpandSchema" {
+			return
+		}
+		// the triggers: the branch edges that enter the block of the call (the members of `a || b || c`)
+		var nonRef []string
+		body := c.Block()
+		for _, pr := range body.Preds {
+			ifi, ok := pr.Instrs[len(pr.Instrs)-1].(*ssa.If)
+			if !ok {
+				continue
+			}
+			sense := pr.Succs[0] == body
+			v := ifi.Cond
+			for {
+				if u, ok := v.(*ssa.UnOp); ok && u.Op == token.NOT {
+					v, sense = u.X, !sense
+					continue
+				}
+				break
+			}
+			desc := condAtom(core.Cond{If: ifi, Value: v, Sense: sense})
+			if strings.Contains(desc, "Ref") {
+				continue
+			}
+			nonRef = append(nonRef, desc)
+		}
+		sort.Strings(nonRef)
+		if len(nonRef) > 0 {
+			r.Bad(rule2, "newSchemaValidator:ExpandSchema", p.Pos(c.Pos()), "the in-place expansion of the caller's schema is also triggered by "+strings.Join(nonRef, ", ")+" (not a reference): a reference-free schema carrying an `id` is rewritten — every map entry and sub-schema re-assigned — on each validation; goroutines sharing that schema race (fatal 'concurrent map writes')")
+		} else {
+			r.OK(rule2, "newSchemaValidator:ExpandSchema", p.Pos(c.Pos()), "expansion is triggered by the schema's reference only")
+		}
+	})
 }
